@@ -273,6 +273,57 @@ def run(pid: str, tier: str, families=None, extra_requests=None, worker=None, va
     return rep.exit_code()
 
 
+def assemble_support_extra(tier):
+    """C03 for the separately generated assemble kernel (core corpus)."""
+    def run_extra(rep, coverage):
+        from .. import judge as _judge
+        from .. import kprog
+
+        reqs = corpus.core_requests() if tier == "quick" else corpus.thorough_requests(common.seed(), per_shape=8, per_shape3=4)
+        tasks = ksweep.build_tasks(reqs, 2, 2, ["support"], "corners", 6000, 240)
+        tasks = [{**t, "mode": "c03a", "program": "assemble"} for t in tasks]
+        import os
+
+        wb = None if tier == "quick" else int(os.environ.get("VERIF_THOROUGH_BUDGET_S", "2400")) // 3
+        results = ksweep.run_tasks(tasks, worker=kprog.run_task, wall_budget=wb)
+        agg = {"paths": 0, "queries": 0}
+        n_v = 0
+        for r in results:
+            for k in agg:
+                agg[k] += r.get("stats", {}).get(k, 0)
+            key = r["request"]["assignment"] + " | " + ",".join(f"{k}:{v}" for k, v in r["request"]["formats"].items())
+            if r["status"] == "harness-error":
+                rep.harness_error(f"assemble {key}: {r.get('error', '')[:200]}")
+            elif r["status"] == "budget" and tier == "quick":
+                rep.harness_error(f"assemble {key}: budget")
+            elif r["status"] == "violation":
+                n_v += 1
+                if n_v > 6:
+                    continue
+                req = Request.make(r["request"]["assignment"], r["request"]["formats"])
+                comp = compile_request(req, kinds=kprog.KINDS3)
+                dec = r["violation"].get("decoded")
+                conf = {"confirmed": False}
+                if dec is not None:
+                    ir = replay.concrete_ir_run(comp, ["assemble"], dec)
+                    if ir["violation"] is not None:
+                        conf = {"confirmed": True, "where": "ir-machine", "violation": ir["violation"]}
+                    else:
+                        o = ir["output"]
+                        o["vals"] = [0.0] * len(o["vals"])
+                        probs = _judge.judge_output(comp, dec, o, ["support"])
+                        conf = {"confirmed": bool(probs), "where": "ir-machine (assemble kernel)", "problems": probs}
+                doc = {"property": "C03", "part": "assemble kernel", "request": r["request"], "dimvec": r["dimvec"],
+                       "violation": r["violation"], "confirmation": conf}
+                if conf["confirmed"]:
+                    rep.violation({"name": key, "kind": r["violation"]["kind"], "program": "assemble", "request": key}, doc)
+                else:
+                    rep.harness_error(f"assemble counterexample for {key} did not reproduce")
+        return {"assemble_kernel_support": {"tasks": len(tasks), "completed": len(results), **agg, "solver_counterexamples": n_v}}
+
+    return run_extra
+
+
 def _count(xs):
     out = {}
     for x in xs:
